@@ -607,6 +607,10 @@ def run_pnp(ck, rng, thorough):
 
 # ------------------------------------------------------------------------------- driver
 def run(ck):
+    if ck.shard == 0:
+        # repeat-call monitor (shared, added by the framework owner): history / reused-object / memory-layout independence
+        from .. import repeat
+        repeat.run(ck, PID, repeat.table(PID, ck.rng("repeat")))
     thorough = ck.tier == "thorough"
     for dn in ("f64", "f32"):
         run_alignment(ck, ck.rng("align" + dn), dn, thorough)
